@@ -96,6 +96,35 @@ func resolveIdent(c *ctxT, fd *ast.FuncDecl, name string) string {
 
 func heightSrc(src string) string {
 	s := strings.ReplaceAll(src, " ", "")
+	return heightSrcOf(s)
+}
+
+// heightSrcVia classifies the source of a height expression; an expression that is a call of a keeper helper
+// `k.F(ctx)` is classified by what the body of F reads (one level).
+func heightSrcVia(c *ctxT, src string) string {
+	s := strings.ReplaceAll(src, " ", "")
+	if r := heightSrcOf(s); r != "unknown" {
+		return r
+	}
+	if m := regexp.MustCompile(`^k\.([A-Za-z0-9_]+)\(ctx\)(\.[A-Za-z0-9_]+)?$`).FindStringSubmatch(s); m != nil {
+		if fd := c.findFunc(c05Keeper, "Keeper", m[1]); fd != nil && fd.Body != nil {
+			body := strings.ReplaceAll(c.src(fd.Body), " ", "")
+			switch {
+			case strings.Contains(body, "AverageBlockTime") || strings.Contains(body, "ctx.BlockTime()"):
+				return "projected"
+			case strings.Contains(body, "ctx.BlockHeight()") || strings.Contains(body, "ctx.BlockHeader()"):
+				return "fxHeight"
+			case strings.Contains(body, "GetLastObservedBlockHeight(ctx).BlockHeight") && !strings.Contains(body, "ExternalBlockHeight"):
+				return "observedFx"
+			case strings.Contains(body, "GetLastObservedBlockHeight(ctx).ExternalBlockHeight") && m[2] == "":
+				return "observedExternal"
+			}
+		}
+	}
+	return "unknown"
+}
+
+func heightSrcOf(s string) string {
 	switch {
 	case s == "k.GetLastObservedBlockHeight(ctx).ExternalBlockHeight":
 		return "observedExternal"
@@ -324,7 +353,7 @@ func extractC05(c *ctxT) {
 							other = r
 						}
 					}
-					src = heightSrc(other)
+					src = heightSrcVia(c, other)
 					cancels = callsNamed(c, ifs.Body, "CancelOutgoingTxBatch")
 				}
 				if v, ok := lastReturnBool(fl.Body); ok && !v {
@@ -350,7 +379,7 @@ func extractC05(c *ctxT) {
 							other = r
 						}
 					}
-					src = heightSrc(other)
+					src = heightSrcVia(c, other)
 					if v, ok := lastReturnBool(ifs.Body); ok && v && len(ifs.Body.List) == 1 {
 						stops = true
 					}
@@ -404,6 +433,81 @@ func extractC05(c *ctxT) {
 			})
 		}
 		def("tryAttestationOrder", "List String", leanList(order), "order of the state-changing calls inside TryAttestation")
+		// the clean-ups EndBlocker runs (directly, or through a keeper helper it calls: one level), in call order
+		var eb []string
+		if fd := c.findFunc(c05Keeper, "Keeper", "EndBlocker"); fd != nil && fd.Body != nil {
+			var visit func(body ast.Node, depth int)
+			visit = func(body ast.Node, depth int) {
+				ast.Inspect(body, func(n ast.Node) bool {
+					ce, ok := n.(*ast.CallExpr)
+					if !ok {
+						return true
+					}
+					se, ok := ce.Fun.(*ast.SelectorExpr)
+					if !ok {
+						return true
+					}
+					switch se.Sel.Name {
+					case "cleanupTimedOutBatches", "cleanupTimeOutBridgeCall":
+						eb = append(eb, leanStr(se.Sel.Name))
+					default:
+						if depth == 0 && c.src(se.X) == "k" {
+							if h := c.findFunc(c05Keeper, "Keeper", se.Sel.Name); h != nil && h.Body != nil {
+								visit(h.Body, 1)
+							}
+						}
+					}
+					return true
+				})
+			}
+			visit(fd.Body, 0)
+		}
+		def("endBlockerCleanups", "List String", leanList(eb), "the clean-up functions EndBlocker runs (every block, no observation needed), in call order")
+	}
+	// ---- AddUnbatchedTxBridgeFee: which account pays the added fee -----------------------------------------
+	{
+		payer := "unknown"
+		var payers []string
+		if fd := c.findFunc(c05Keeper, "Keeper", "AddUnbatchedTxBridgeFee"); fd != nil && fd.Body != nil {
+			ast.Inspect(fd.Body, func(n ast.Node) bool {
+				ce, ok := n.(*ast.CallExpr)
+				if !ok {
+					return true
+				}
+				se, ok := ce.Fun.(*ast.SelectorExpr)
+				if !ok || len(ce.Args) < 2 {
+					return true
+				}
+				switch se.Sel.Name {
+				case "SendCoinsFromAccountToModule", "SendCoins", "TransferBridgeCoinToExternal", "BaseCoinToBridgeToken", "BurnCoinsFromAccount":
+				default:
+					return true
+				}
+				a := strings.ReplaceAll(c.src(ce.Args[1]), " ", "")
+				if r := resolveIdent(c, fd, a); r != "" {
+					a = strings.ReplaceAll(r, " ", "")
+				}
+				cls := "unknown"
+				switch {
+				case a == "sender":
+					cls = "msgSender"
+				case strings.Contains(a, "tx.Sender"):
+					cls = "txSender"
+				}
+				payers = append(payers, cls)
+				return true
+			})
+		}
+		if len(payers) > 0 {
+			payer = payers[0]
+			for _, p := range payers {
+				if p != payer {
+					payer = "unknown"
+				}
+			}
+		}
+		sb.WriteString("/-- the account debited by a fee increase -/\ninductive Payer where | msgSender | txSender | unknown\n  deriving DecidableEq, Repr\n\n")
+		def("incFeePayer", "Payer", "."+payer, "AddUnbatchedTxBridgeFee takes the added fee from: the `sender` argument (the message signer) / the creator stored in the pool entry")
 	}
 	// ---- CalExternalTimeoutHeight / zero-timeout rejection ------------------------------------------------
 	{
